@@ -267,72 +267,6 @@ func (e *Exec) monitorOrder(j *Judgement, events []*world.Event) {
 			}
 		}
 	}
-	// the re-sent configuration of a term is exactly the applied configuration the re-sync task read: nothing that was
-	// never applied, and - when the task went on to declare the target SYNCHRONIZED - nothing missing
-	type rs struct {
-		tgt      string
-		rc       *configapi.Configuration
-		sent     map[string]bool
-		allOK    bool
-		declared bool
-	}
-	resyncs := map[int64]*rs{}
-	for _, ev := range events {
-		if !strings.HasPrefix(ev.Task, "configuration:") {
-			continue
-		}
-		if ev.Kind == "dev.Set" && ev.ReadCfg != nil && ev.Dev != nil {
-			g := resyncs[ev.TaskSer]
-			if g == nil {
-				g = &rs{tgt: ev.Target, rc: ev.ReadCfg, sent: map[string]bool{}, allOK: true}
-				resyncs[ev.TaskSer] = g
-			}
-			if ev.Dev.Outcome != "applied" {
-				g.allOK = false
-			}
-			for _, op := range ev.Dev.Ops {
-				ps := op.P.String()
-				g.sent[ps] = true
-				pv := g.rc.Status.Applied.Values[ps]
-				switch {
-				case pv == nil:
-					j.add("master", []string{"C10", "C04"}, "master/resync-sends-what-was-not-applied", "target %s: the re-sync in term %d sent %s, which is not among the applied values it read (applied index %d)", ev.Target, ev.Dev.Election, ps, g.rc.Status.Applied.Index)
-				case pv.Deleted != op.Del || (!op.Del && ValOfAPI(&pv.Value) != op.V):
-					j.add("master", []string{"C10", "C04"}, "master/resync-sends-another-value", "target %s: the re-sync in term %d sent %s (delete=%v, %s) but the applied value it read is (delete=%v, %s)", ev.Target, ev.Dev.Election, ps, op.Del, op.V.Pretty(), pv.Deleted, ValOfAPI(&pv.Value).Pretty())
-				}
-			}
-		}
-		if ev.Kind == "cfg.UpdateStatus" && ev.OK && ev.Cfg != nil && ev.Cfg.Status.State == configapi.ConfigurationStatus_SYNCHRONIZED {
-			if g := resyncs[ev.TaskSer]; g != nil {
-				g.declared = true
-			}
-		}
-	}
-	for _, g := range resyncs {
-		e.C.Count("resyncs_compared_with_applied_values", 1)
-		if !g.declared || !g.allOK {
-			continue
-		}
-		for ps := range g.rc.Status.Applied.Values {
-			if !g.sent[ps] {
-				j.add("master", []string{"C10", "C04"}, "master/resync-incomplete", "target %s: the re-sync declared the target synchronized without having sent the applied value %s", g.tgt, ps)
-			}
-		}
-	}
-	// the target controller asks for a connection to every target entity of the topology (and never for a
-	// disconnection while the entity exists); judged for the current incarnation, whose watchers replay the topology
-	if inc := e.W.Cur(); inc.HasControllers() {
-		for t := range e.W.Devices {
-			cn, dn := inc.Conns.ConnectRequests(t)
-			e.C.Count("target_connection_requests_checked", 1)
-			if cn == 0 {
-				j.add("master", props, "master/connection-never-requested", "target %s exists in the topology but the target controller never asked for a connection to it", t)
-			}
-			if dn > 0 {
-				j.add("master", props, "master/disconnection-requested-for-existing-target", "target %s exists in the topology but the target controller asked %d times to disconnect from it", t, dn)
-			}
-		}
-	}
 	for t, vs := range byVersion {
 		var versions []uint64
 		for v := range vs {
@@ -501,6 +435,72 @@ func (e *Exec) monitorMaster(j *Judgement, events []*world.Event) {
 			}
 			if ev.Dev.Outcome == "applied" && ev.Dev.Election < e.maxElectionBefore(events, ev) {
 				j.add("master", props, "master/stale-election-accepted", "target %s: request with a stale election id was accepted", ev.Target)
+			}
+		}
+	}
+	// the re-sent configuration of a term is exactly the applied configuration the re-sync task read: nothing that was
+	// never applied, and - when the task went on to declare the target SYNCHRONIZED - nothing missing
+	type rs struct {
+		tgt      string
+		rc       *configapi.Configuration
+		sent     map[string]bool
+		allOK    bool
+		declared bool
+	}
+	resyncs := map[int64]*rs{}
+	for _, ev := range events {
+		if !strings.HasPrefix(ev.Task, "configuration:") {
+			continue
+		}
+		if ev.Kind == "dev.Set" && ev.ReadCfg != nil && ev.Dev != nil {
+			g := resyncs[ev.TaskSer]
+			if g == nil {
+				g = &rs{tgt: ev.Target, rc: ev.ReadCfg, sent: map[string]bool{}, allOK: true}
+				resyncs[ev.TaskSer] = g
+			}
+			if ev.Dev.Outcome != "applied" {
+				g.allOK = false
+			}
+			for _, op := range ev.Dev.Ops {
+				ps := op.P.String()
+				g.sent[ps] = true
+				pv := g.rc.Status.Applied.Values[ps]
+				switch {
+				case pv == nil:
+					j.add("master", []string{"C10", "C04"}, "master/resync-sends-what-was-not-applied", "target %s: the re-sync in term %d sent %s, which is not among the applied values it read (applied index %d)", ev.Target, ev.Dev.Election, ps, g.rc.Status.Applied.Index)
+				case pv.Deleted != op.Del || (!op.Del && ValOfAPI(&pv.Value) != op.V):
+					j.add("master", []string{"C10", "C04"}, "master/resync-sends-another-value", "target %s: the re-sync in term %d sent %s (delete=%v, %s) but the applied value it read is (delete=%v, %s)", ev.Target, ev.Dev.Election, ps, op.Del, op.V.Pretty(), pv.Deleted, ValOfAPI(&pv.Value).Pretty())
+				}
+			}
+		}
+		if ev.Kind == "cfg.UpdateStatus" && ev.OK && ev.Cfg != nil && ev.Cfg.Status.State == configapi.ConfigurationStatus_SYNCHRONIZED {
+			if g := resyncs[ev.TaskSer]; g != nil {
+				g.declared = true
+			}
+		}
+	}
+	for _, g := range resyncs {
+		e.C.Count("resyncs_compared_with_applied_values", 1)
+		if !g.declared || !g.allOK {
+			continue
+		}
+		for ps := range g.rc.Status.Applied.Values {
+			if !g.sent[ps] {
+				j.add("master", []string{"C10", "C04"}, "master/resync-incomplete", "target %s: the re-sync declared the target synchronized without having sent the applied value %s", g.tgt, ps)
+			}
+		}
+	}
+	// the target controller asks for a connection to every target entity of the topology (and never for a
+	// disconnection while the entity exists); judged for the current incarnation, whose watchers replay the topology
+	if inc := e.W.Cur(); inc.HasControllers() {
+		for t := range e.W.Devices {
+			cn, dn := inc.Conns.ConnectRequests(t)
+			e.C.Count("target_connection_requests_checked", 1)
+			if cn == 0 {
+				j.add("master", props, "master/connection-never-requested", "target %s exists in the topology but the target controller never asked for a connection to it", t)
+			}
+			if dn > 0 {
+				j.add("master", props, "master/disconnection-requested-for-existing-target", "target %s exists in the topology but the target controller asked %d times to disconnect from it", t, dn)
 			}
 		}
 	}
